@@ -89,3 +89,83 @@ Proof.
   all: db ec; db st; db cs; db ca; db bc; db sc; cbn in *; try discriminate; try reflexivity.
 Qed.
 
+
+Lemma inv2_emit s e : inv2 (emit s e) = inv2 s.
+Proof.
+  destruct (emit_ctrl s e) as (A & B & C & D & E & F & G & H & I & J & K & L & M & N).
+  unfold inv2. rewrite A, C, D, H, I, J. reflexivity.
+Qed.
+
+Lemma inv2_step s l s' r : invb s = true -> inv2 s = true -> step s l = Some (s', r) -> inv2 s' = true.
+Proof.
+  intros I I2 S. destruct l; unfold step in S.
+  all: destruct s as [ec mv st cs ca tp bc sc he co g0 b bok h hok c0 q hi]; cbn in *;
+       destruct g0 as [| | | |[|]|[|]| | | | | |]; destruct c0; cbn in *; try discriminate.
+  all: dif; inversion S; subst; clear S; rewrite ?inv2_emit; cbn in *; unfold invb, inv2, opn in *; cbn in *.
+  all: db ec; db bok; db bc; db sc; cbn in *; try discriminate; try reflexivity.
+  all: try assumption.
+  all: try (match goal with H : context [is_nil ?b] |- _ => destruct b end; cbn in *; try discriminate; try reflexivity).
+Qed.
+
+Definition Inv (s : state) : Prop := invb s = true /\ inv2 s = true.
+
+Lemma Inv_reach s0 s : Inv s0 -> reach s0 s -> Inv s.
+Proof.
+  intros H0 R. induction R as [|s l s' r R IH S]; [exact H0|].
+  destruct IH as [A B]. split; [eapply inv_step; eauto | eapply inv2_step; eauto].
+Qed.
+
+
+(* ---- progress: inside an API call some internal step is always enabled ---- *)
+Lemma witness_not_stuck s l : internal l = true -> enabledb s l = true -> stuck s = false.
+Proof.
+  intros A B. unfold stuck. destruct (internal_enabled s) eqn:E; [|apply andb_false_r].
+  exfalso. assert (H : In l (internal_enabled s)).
+  { unfold internal_enabled, enabled. apply filter_In. split; [apply filter_In; split; [|exact B]|exact A].
+    destruct l; cbn; tauto. }
+  rewrite E in H. exact H.
+Qed.
+
+Definition pick (s : state) : label :=
+  match g s with
+  | GInit => LGInit
+  | GBuild => if is_nil (build s) then LGEnd else LGAct
+  | GHs => if is_nil (hs s) then LGEnd else LGAct
+  | GFail => LGErrTail | GEarly => LGEarly | GClose1 => LGClose1 | GClose2 => LGClose2 | GRet => LGRet
+  | GWaitBlk _ => LSyncBlk
+  | GWaitSig _ => match c s with CCloseLoop => LGCancelSeen | _ => LSyncSig end
+  | GDone | GNone => match c s with CHdLock => LLock | _ => LRecvClosed end
+  end.
+
+Lemma not_stuck_inv s : Inv s -> stuck s = false.
+Proof.
+  intros [I I2]. destruct (in_call s) eqn:IC; [|unfold stuck; rewrite IC; reflexivity].
+  apply (witness_not_stuck s (pick s)).
+  - unfold pick. destruct (g s); try reflexivity; try (destruct (is_nil _); reflexivity); destruct (c s); reflexivity.
+  - unfold enabledb, pick, in_call in *.
+    destruct s as [ec mv st cs ca tp bc sc he co g0 b bok h hok c0 q hi]; cbn [g c build hs] in *.
+    unfold invb, inv2, opn in *; cbn [g c build hs early_closes build_ok blk_closed sig_closed cancel_set started cancelled] in *.
+    destruct g0 as [| | | |[|]|[|]| | | | | |]; destruct c0; try discriminate; cbn in I, I2 |- *; try discriminate; try reflexivity.
+    all: try (destruct b as [|[?|] ?]; cbn; reflexivity).
+    all: try (destruct h as [|[?|] ?]; cbn; try reflexivity; destruct hok; reflexivity).
+    all: db ec; db bok; db bc; db sc; db cs; db st; db ca; cbn in *; try discriminate; try reflexivity.
+    all: destruct b; discriminate.
+Qed.
+
+Lemma measure_emit s e : measure (emit s e) = measure s.
+Proof.
+  destruct (emit_ctrl s e) as (A & B & C & D & E & F & G & H & I & J & K & L & M & N).
+  unfold measure. rewrite A, B, I, K. reflexivity.
+Qed.
+
+Lemma measure_step s l s' r : internal l = true -> step s l = Some (s', r) -> (measure s' < measure s)%nat.
+Proof.
+  intros IL S. destruct l; try discriminate IL; clear IL; unfold step in S.
+  all: destruct s as [ec mv st cs ca tp bc sc he co g0 b bok h hok c0 q hi]; cbn in S;
+       destruct g0 as [| | | |[|]|[|]| | | | | |]; destruct c0; cbn in S; try discriminate.
+  all: repeat (match goal with
+          | H : context [if ?b then _ else _] |- _ => destruct b eqn:?
+          | H : context [match ?b with _ => _ end] |- _ => destruct b eqn:?
+          end; cbn in S; try discriminate).
+  all: inversion S; subst; clear S; rewrite ?measure_emit; unfold measure; cbn; try lia.
+Qed.
